@@ -87,6 +87,22 @@ def chain_models(nodes, edges):
     return [{"nodes": [nd["id"] for nd in nodes], "edges": edges}]
 
 
+def gen_esn(rng, fb=None):
+    """The ESN convenience node: reservoir (internal equation) >> readout with fixed weights, optionally with feedback readout -> reservoir,
+    made by the constructor flag or wired by hand.  Returns (nodes, models, din)."""
+    d = rng.randint(1, 2)
+    fb = rng.random() < 0.5 if fb is None else fb
+    res = make_node(rng, 0, "res", d)
+    u = len(res["W"])
+    o = rng.randint(1, 2)
+    if fb:
+        res.update(kind="resfb", Wfb=mat(rng, u, o, 2, 1), fbact=rng.choice(["id", "relu", "half"]), fb={"node": 1})
+    rd = make_node(rng, 1, "lin", u)
+    rd.update(Wout=mat(rng, u, o, 2, 2), bias=[dy(rng, 2, 1) for _ in range(o)])
+    rd["odim"] = o
+    return [res, rd], [{"nodes": [0, 1], "edges": [[0, 1]], "build": "esn", "wire": rng.choice(["ctor", "hand"])}], d
+
+
 # ------------------------------------------------------------------------------------------ feedback topologies (C05)
 def gen_fb(rng, family=None):
     """Feedback scenario skeleton: (nodes, models, receiver id, sender id or None, pre_ops)."""
